@@ -75,6 +75,8 @@ Defs == [
   N6  |-> [flavour |-> "namedtuple",   module |-> "m1", py |-> "N6",  fields |-> << <<"count", P("int"), FALSE>>, <<"index", P("Decimal"), FALSE>> >>],
   \* a slotted dataclass without any field (no __dict__ to fall back on)
   E0  |-> [flavour |-> "dc_slots",     module |-> "m1", py |-> "E0",  fields |-> << >>],
+  \* no class-level annotations: members come from the constructor's signature, one of them keyword-only
+  G1  |-> [flavour |-> "sig",          module |-> "m1", py |-> "G1",  fields |-> << <<"a", P("int"), FALSE>>, <<"when", Opt(P("date")), TRUE>> >>],
   \* a second recursive class with the Python name of R1, in another module, with other field types
   R1b |-> [flavour |-> "dataclass",    module |-> "m2", py |-> "R1",  fields |-> << <<"v", P("str"), FALSE>>, <<"nxt", Opt(Cls("R1b")), TRUE>> >>]
 ]
@@ -162,7 +164,10 @@ NameClash == {Tup(<<Cls("D1"), Cls("D1b"), Cls("D1")>>), Tup(<<Cls("D1b"), Cls("
 \* `type Nothing = None`: the alias value is the object None, not NoneType
 NoneAlias == {Wrap("alias", NoneT), Coll("list", "builtin", Wrap("alias", NoneT)), Map("builtin", Wrap("alias", NoneT), P("date")),
               Opt(Wrap("newtype", NoneT))}
-Adversarial == NoneMiddle \cup TwicePaths \cup NameClash \cup NoneAlias
+\* an enumeration declared after a container / record member (its members must not pass for an empty container)
+EnumAfter == {Un("Union", <<a, E(e)>>) : a \in {Coll("list", "builtin", P("int")), Map("builtin", P("str"), P("int")), Cls("D1"),
+                                                 Tup(<<P("int"), P("str")>>), Cls("TD2")}, e \in {"Color", "Level"}}
+Adversarial == NoneMiddle \cup TwicePaths \cup NameClash \cup NoneAlias \cup EnumAfter
 
 Universe == Depth2 \cup WithWrappers \cup Adversarial
 
@@ -173,7 +178,7 @@ Ext(n) == [k |-> "ext", n |-> n]
 ExtNames == {"Any", "object", "list", "dict", "tuple", "set", "frozenset", "typing.List", "typing.Dict", "typing.Tuple",
              "typing.Set", "typing.Mapping", "typing.Sequence", "typing.Iterable", "T_free", "T_bound", "T_constr",
              "Callable", "CallableBare", "CallableEll", "type[int]", "typing.Type", "Box", "Box[int]", "Box[T]", "NoHints",
-             "Empty", "WithAny", "InitHints"}
+             "VarHints", "KwOnly", "Empty", "WithAny", "InitHints"}
 \* positions whose value must come back untouched
 PassThroughNames == {"Any", "object", "T_free", "Callable", "CallableBare", "CallableEll", "type[int]", "typing.Type"}
 ExtLeaves == {Ext(n) : n \in ExtNames}
